@@ -48,6 +48,7 @@ def run(idx: ProgramIndex, rep: Report, tier: str):
     rep.rule("C19-1", "gradient arity, saved-tensor arity and ctx-attribute def/use agree between forward and backward")
     rep.rule("C19-2", "storage/version consistency of in-place code on every path of forward and backward")
     rep.rule("C19-3", "a literal None gradient for a tensor input implies that forward raises when that input needs a gradient")
+    rep.rule("C19-5", "Functions and their helpers address matrix axes from the right (explicit negative dims): gradients stay correct for any batch shape")
     rep.rule("C19-4", "the kernel-side dispatch guard covers the Function's preconditions; sibling kernels agree; apply arity matches")
     fs = functions(idx)
     rep.floor("C19-1", "autograd Functions", len(fs), 6)
@@ -57,6 +58,7 @@ def run(idx: ProgramIndex, rep: Report, tier: str):
         storage(idx, c, rep, helpers)
         none_refused(idx, c, rep)
     dispatch(idx, rep, fs)
+    axis_addressing(idx, rep, fs)
     rep.assume("callables passed into a Function (sq_dist_func, dist_func) return freshly allocated tensors (Kernel.covar_dist does)")
 
 
@@ -443,3 +445,76 @@ def dispatch(idx: ProgramIndex, rep: Report, fs: List[ClassInfo]):
     if len(guards) == 2:
         a, b = guards["RBFKernel"], guards["MaternKernel"]
         rep.add("C19-4", "gpytorch.kernels:RBFKernel/MaternKernel[sibling guards]", "gpytorch/kernels/", a == b, "both kernels dispatch on the same disjunct set" if a == b else "RBFKernel and MaternKernel dispatch on different conditions: %s" % sorted(a ^ b), {})
+
+
+# ---- C19-5 ---------------------------------------------------------------------------------------------------------
+def _negative_int(e: ast.AST) -> Optional[bool]:
+    if isinstance(e, ast.UnaryOp) and isinstance(e.op, ast.USub) and isinstance(e.operand, ast.Constant) and isinstance(e.operand.value, int):
+        return True
+    if isinstance(e, ast.Constant) and isinstance(e.value, int):
+        return e.value < 0
+    return None
+
+
+def axis_addressing(idx: ProgramIndex, rep: Report, fs: List[ClassInfo]):
+    """In the modules that define autograd Functions every tensor method that addresses matrix axes must name them from the
+    right: `.diagonal()` defaults to dims (0, 1), `.t()` is 2-D only, `transpose(0, 1)` / positive reduction dims hit batch axes."""
+    from .c08 import _neg_dim, REDUCTIONS
+
+    funcs: List[FuncInfo] = []
+    for c in fs:
+        funcs += list(c.methods.values())
+        mi = c.module
+        for f in mi.functions.values():
+            if f not in funcs:
+                funcs.append(f)
+    n = 0
+    seen = set()
+    for f in funcs:
+        if id(f.node) in seen:
+            continue
+        seen.add(id(f.node))
+        for c in ast.walk(f.node):
+            if not (isinstance(c, ast.Call) and isinstance(c.func, ast.Attribute)):
+                continue
+            m = c.func.attr
+            base = chain(c.func.value)
+            inst = "%s:%s:%s" % (f.module.name, f.qualname, norm(c)[:70])
+            where = "%s:%d" % (f.module.relpath, c.lineno)
+            if m == "diagonal" and base not in ("torch",):
+                n += 1
+                kw = {k.arg: k.value for k in c.keywords}
+                d1 = kw.get("dim1", c.args[1] if len(c.args) > 1 else None)
+                d2 = kw.get("dim2", c.args[2] if len(c.args) > 2 else None)
+                ok = d1 is not None and d2 is not None and _negative_int(d1) is True and _negative_int(d2) is True
+                rep.add("C19-5", inst, where, ok, "diagonal over dims (%s, %s)" % (src(d1), src(d2)) if ok else
+                        "`%s` takes the diagonal over the default dims (0, 1) (or non-negative dims): for a batched matrix these are batch axes, so the hand-written gradient is wrong for batch shapes" % norm(c)[:60], {})
+            elif m == "transpose" and len(c.args) == 2:
+                n += 1
+                a, b = _negative_int(c.args[0]), _negative_int(c.args[1])
+                ok = a is True and b is True
+                if a is None or b is None:
+                    rep.observe("C19-5", inst, where, "transpose with non-literal dims")
+                else:
+                    rep.add("C19-5", inst, where, ok, "transposes the last two axes" if ok else "`%s` addresses axes from the left: batch axes are transposed" % norm(c)[:60], {})
+            elif m == "t" and not c.args:
+                n += 1
+                recv = c.func.value
+                two_d = isinstance(recv, ast.Call) and isinstance(recv.func, ast.Attribute) and recv.func.attr in ("view", "reshape") and len(recv.args) == 2
+                rep.add("C19-5", inst, where, two_d, ".t() of an explicitly 2-D view" if two_d else "`.t()` is defined for <= 2-D tensors only: a batched operand raises or transposes the wrong axes", {})
+            elif m in REDUCTIONS and base not in ("torch", "math"):
+                dim = None
+                for k in c.keywords:
+                    if k.arg in ("dim", "axis"):
+                        dim = k.value
+                if dim is None and c.args and m != "norm":
+                    dim = c.args[0]
+                if dim is None:
+                    continue  # full reductions / boolean tests are outside this rule (C08-2 handles kernels)
+                v = _neg_dim(dim, f.node)
+                n += 1
+                if v is None:
+                    rep.observe("C19-5", inst, where, "reduction dim `%s` is not a literal" % src(dim))
+                else:
+                    rep.add("C19-5", inst, where, v, "reduces over dim %s" % src(dim) if v else "`%s` reduces over a non-negative dim (a batch axis when the input is batched)" % norm(c)[:60], {})
+    rep.floor("C19-5", "axis-addressing calls in Function modules", n, 10)
